@@ -891,6 +891,22 @@ def _fresh_field_alias(f, cname, frozen_of) -> int:
     a = f.args
     params = {x.arg for x in a.posonlyargs + a.args + a.kwonlyargs}
     done = 0
+    # the chained form `self.g = v = E` is `v = E; self.g = v`
+    k = 0
+    while k < len(f.body):
+        st = f.body[k]
+        if isinstance(st, ast.Assign) and len(st.targets) == 2:
+            names = [t for t in st.targets if isinstance(t, ast.Name)]
+            flds = [t for t in st.targets if _self_chain(t) is not None and len(_self_chain(t)) == 1]
+            if len(names) == 1 and len(flds) == 1 and names[0].id not in params:
+                first = ast.copy_location(ast.Assign(targets=[names[0]], value=st.value), st)
+                second = ast.copy_location(ast.Assign(targets=[flds[0]], value=ast.Name(id=names[0].id, ctx=ast.Load())), st)
+                second.col_offset = st.col_offset + 1          # keeps "later in the source" comparisons meaningful
+                f.body[k:k + 1] = [first, second]
+                ast.fix_missing_locations(first)
+                ast.fix_missing_locations(second)
+                k += 1
+        k += 1
     i = 0
     while i + 1 < len(f.body):
         s1, s2 = f.body[i], f.body[i + 1]
